@@ -942,3 +942,89 @@ package app
 //@   flags nosweep
 //@   requires core [inv]: app != nil && appCoreOK(app)
 //@   assert_at healthChecker#1 C20.loops_start_initialised [C20]: appOK(app)
+
+// ---- the appDCS implementation against the operations of the coordination client: each wrapper uses its own key, hands the
+// caller's value to the client and the client's answer back (the ghost-level IAppDCS contracts that the handlers are verified
+// against stay assumed in /verif/specs/env.spec; what is checked here is that the real wrappers are those thin forwarders)
+//@ func (*app.appDCS).SetActiveNodes
+//@   assert_at Set#1 wrap.SetActiveNodes.key [C04,C11]: callarg0 == pathActiveNodes && hastype(callarg1, "[]string") && unbox(callarg1, "[]string") == nodes
+//@   ensures wrap.SetActiveNodes.answer [C04,C11]: reached("Set", 1) && result == resultof("Set", 1)
+//@ func (*app.appDCS).DeleteActiveNodes
+//@   assert_at Delete#1 wrap.DeleteActiveNodes.key [C04,C09]: callarg0 == pathActiveNodes
+//@   ensures wrap.DeleteActiveNodes.answer [C04,C09]: reached("Delete", 1) && result == resultof("Delete", 1)
+//@ func (*app.appDCS).SetMaintenance
+//@   assert_at Set#1 wrap.SetMaintenance.key [C09]: callarg0 == pathMaintenance && hastype(callarg1, "*Maintenance") && unbox(callarg1, "*Maintenance") == maintenance
+//@   ensures wrap.SetMaintenance.answer [C09]: reached("Set", 1) && result == resultof("Set", 1)
+//@ func (*app.appDCS).DeleteMaintenance
+//@   assert_at Delete#1 wrap.DeleteMaintenance.key [C09]: callarg0 == pathMaintenance
+//@   ensures wrap.DeleteMaintenance.answer [C09]: reached("Delete", 1) && result == resultof("Delete", 1)
+//@ func (*app.appDCS).GetLastSwitchover
+//@   assert_at Get#1 wrap.GetLastSwitchover.key [C05,C06]: callarg0 == pathLastSwitch && hastype(callarg1, "*Switchover") && unbox(callarg1, "*Switchover") == switchover
+//@   ensures wrap.GetLastSwitchover.answer [C05,C06]: reached("Get", 1) && result == resultof("Get", 1)
+//@ func (*app.appDCS).GetCurrentSwitchover
+//@   assert_at Get#1 wrap.GetCurrentSwitchover.key [C05,C06]: callarg0 == pathCurrentSwitch && hastype(callarg1, "*Switchover") && unbox(callarg1, "*Switchover") == switchover
+//@   ensures wrap.GetCurrentSwitchover.answer [C05,C06]: reached("Get", 1) && result == resultof("Get", 1)
+//@ func (*app.appDCS).CreateCurrentSwitchover
+//@   assert_at Create#1 wrap.CreateCurrentSwitchover.key [C05,C06]: callarg0 == pathCurrentSwitch && hastype(callarg1, "*Switchover") && unbox(callarg1, "*Switchover") == switchover
+//@   ensures wrap.CreateCurrentSwitchover.answer [C05,C06]: reached("Create", 1) && result == resultof("Create", 1)
+//@ func (*app.appDCS).SetCurrentSwitchover
+//@   assert_at Set#1 wrap.SetCurrentSwitchover.key [C06]: callarg0 == pathCurrentSwitch && hastype(callarg1, "*Switchover") && unbox(callarg1, "*Switchover") == switchover
+//@   ensures wrap.SetCurrentSwitchover.answer [C06]: reached("Set", 1) && result == resultof("Set", 1)
+//@ func (*app.appDCS).DeleteCurrentSwitchover
+//@   assert_at Delete#1 wrap.DeleteCurrentSwitchover.key [C06]: callarg0 == pathCurrentSwitch
+//@   ensures wrap.DeleteCurrentSwitchover.answer [C06]: reached("Delete", 1) && result == resultof("Delete", 1)
+//@ func (*app.appDCS).SetLastSwitchover
+//@   assert_at Set#1 wrap.SetLastSwitchover.key [C06]: callarg0 == pathLastSwitch && hastype(callarg1, "*Switchover") && unbox(callarg1, "*Switchover") == switchover
+//@   ensures wrap.SetLastSwitchover.answer [C06]: reached("Set", 1) && result == resultof("Set", 1)
+//@ func (*app.appDCS).SetLastRejectedSwitchover
+//@   assert_at Set#1 wrap.SetLastRejectedSwitchover.key [C06]: callarg0 == pathLastRejectedSwitch && hastype(callarg1, "*Switchover") && unbox(callarg1, "*Switchover") == switchover
+//@   ensures wrap.SetLastRejectedSwitchover.answer [C06]: reached("Set", 1) && result == resultof("Set", 1)
+//@ func (*app.appDCS).GetLastRejectedSwitchover
+//@   assert_at Get#1 wrap.GetLastRejectedSwitchover.key [C06]: callarg0 == pathLastRejectedSwitch && hastype(callarg1, "*Switchover") && unbox(callarg1, "*Switchover") == switchover
+//@   ensures wrap.GetLastRejectedSwitchover.answer [C06]: reached("Get", 1) && result == resultof("Get", 1)
+//@ func (*app.appDCS).SetLowSpace
+//@   assert_at Set#1 wrap.SetLowSpace.key [C18]: callarg0 == pathLowSpace && hastype(callarg1, "bool") && unbox(callarg1, "bool") == lowSpace
+//@   ensures wrap.SetLowSpace.answer [C18]: reached("Set", 1) && result == resultof("Set", 1)
+//@ func (*app.appDCS).SetHealthState
+//@   assert_at JoinPath#1 wrap.SetHealthState.key [C15,C05]: len(callarg0) == 2 && callarg0[0] == pathHealthPrefix && callarg0[1] == host
+//@   assert_at SetEphemeral#1 wrap.SetHealthState.op [C15,C05]: callarg0 == resultof("JoinPath", 1)
+//@   ensures wrap.SetHealthState.answer [C15,C05]: reached("SetEphemeral", 1) && result == resultof("SetEphemeral", 1)
+//@ func (*app.appDCS).GetHealthState
+//@   assert_at JoinPath#1 wrap.GetHealthState.key [C05,C15]: len(callarg0) == 2 && callarg0[0] == pathHealthPrefix && callarg0[1] == host
+//@   assert_at Get#1 wrap.GetHealthState.op [C05,C15]: callarg0 == resultof("JoinPath", 1)
+//@   ensures wrap.GetHealthState.answer [C05,C15]: reached("Get", 1) && result == resultof("Get", 1)
+//@ func (*app.appDCS).ClearRecovery
+//@   assert_at JoinPath#1 wrap.ClearRecovery.key [C11]: len(callarg0) == 2 && callarg0[0] == pathRecovery && callarg0[1] == host
+//@   assert_at Delete#1 wrap.ClearRecovery.op [C11]: callarg0 == resultof("JoinPath", 1)
+//@   ensures wrap.ClearRecovery.answer [C11]: reached("Delete", 1) && result == resultof("Delete", 1)
+//@ func (*app.appDCS).GetActiveNodes
+//@   assert_at Get#1 wrap.GetActiveNodes.key [C04,C05,C06]: callarg0 == pathActiveNodes
+//@   ensures wrap.GetActiveNodes.absent [C04,C05,C06]: errIs(resultof("Get", 1), dcs.ErrNotFound) || errIs(resultof("Get", 1), dcs.ErrMalformed) ==> result0 == nil && result1 == nil
+//@   ensures wrap.GetActiveNodes.error [C04,C05,C06]: resultof("Get", 1) != nil && !errIs(resultof("Get", 1), dcs.ErrNotFound) && !errIs(resultof("Get", 1), dcs.ErrMalformed) ==> result1 != nil && result0 == nil
+//@   ensures wrap.GetActiveNodes.ok [C04,C05,C06]: resultof("Get", 1) == nil ==> result1 == nil
+//@ func (*app.appDCS).GetMaintenance
+//@   assert_at Get#1 wrap.GetMaintenance.key [C09,C05]: callarg0 == pathMaintenance
+//@   ensures wrap.GetMaintenance.error [C09,C05]: resultof("Get", 1) != nil ==> result0 == nil && result1 == resultof("Get", 1)
+//@   ensures wrap.GetMaintenance.ok [C09,C05]: resultof("Get", 1) == nil ==> result0 != nil && result1 == nil
+//@ func (*app.appDCS).GetHostsOnRecovery
+//@   assert_at GetChildren#1 wrap.GetHostsOnRecovery.key [C11]: callarg0 == pathRecovery
+//@   ensures wrap.GetHostsOnRecovery.absent [C11]: errIs(resultof("GetChildren", 1, 1), dcs.ErrNotFound) ==> result0 == nil && result1 == nil
+//@   ensures wrap.GetHostsOnRecovery.other [C11]: !errIs(resultof("GetChildren", 1, 1), dcs.ErrNotFound) ==> result0 == resultof("GetChildren", 1, 0) && result1 == resultof("GetChildren", 1, 1)
+//@ func (*app.appDCS).SetRecovery
+//@   assert_at Create#1 wrap.SetRecovery.dir [C11]: callarg0 == pathRecovery
+//@   assert_at JoinPath#1 wrap.SetRecovery.key [C11]: len(callarg0) == 2 && callarg0[0] == pathRecovery && callarg0[1] == host
+//@   assert_at Create#2 wrap.SetRecovery.op [C11]: callarg0 == resultof("JoinPath", 1)
+//@   ensures wrap.SetRecovery.ok [C11]: result == nil ==> reached("Create", 2) && (resultof("Create", 2) == nil || errIs(resultof("Create", 2), dcs.ErrExists))
+//@   ensures wrap.SetRecovery.error [C11]: reached("Create", 2) && resultof("Create", 2) != nil && !errIs(resultof("Create", 2), dcs.ErrExists) ==> result != nil
+//@ func (*app.appDCS).IsRecoveryNeeded
+//@   assert_at JoinPath#1 wrap.IsRecoveryNeeded.key [C11]: len(callarg0) == 2 && callarg0[0] == pathRecovery && callarg0[1] == host
+//@   assert_at Get#1 wrap.IsRecoveryNeeded.op [C11]: callarg0 == resultof("JoinPath", 1)
+//@   ensures wrap.IsRecoveryNeeded.answer [C11]: result <==> resultof("Get", 1) == nil
+//@ func (*app.appDCS).SetMasterHost
+//@   assert_at Set#1 wrap.SetMasterHost.key [C06,C09]: callarg0 == pathMasterNode && hastype(callarg1, "string") && unbox(callarg1, "string") == master
+//@   ensures wrap.SetMasterHost.ok [C06,C09]: resultof("Set", 1) == nil ==> result0 == master && result1 == nil
+//@   ensures wrap.SetMasterHost.error [C06,C09]: resultof("Set", 1) != nil ==> result1 != nil
+//@ func (*app.appDCS).GetMasterHostFromDcs
+//@   assert_at Get#1 wrap.GetMasterHostFromDcs.key [C06,C09,C05]: callarg0 == pathMasterNode
+//@   ensures wrap.GetMasterHostFromDcs.error [C06,C09,C05]: resultof("Get", 1) != nil && !errIs(resultof("Get", 1), dcs.ErrNotFound) ==> result1 != nil && result0 == ""
+//@   ensures wrap.GetMasterHostFromDcs.ok [C06,C09,C05]: resultof("Get", 1) == nil || errIs(resultof("Get", 1), dcs.ErrNotFound) ==> result1 == nil
